@@ -285,4 +285,40 @@ theorem matchClose_append_none (o c : Char) (src rest : List Char) (d : Nat)
         obtain ⟨i, hi, hm⟩ := ih _ h
         exact ⟨i + 1, by simp; omega, by rw [if_neg hx, if_neg ho, hm]; rfl⟩
 
+/-! ### comments and the close-delimiter verification -/
+
+theorem takeWhile_idem {α} (p : α → Bool) (l : List α) : (l.takeWhile p).takeWhile p = l.takeWhile p := by
+  induction l with
+  | nil => rfl
+  | cons c cs ih =>
+    by_cases hp : p c = true
+    · simp [List.takeWhile_cons, hp, ih]
+    · simp [List.takeWhile_cons, hp]
+
+theorem stripComment_idem (l : Line) : stripComment (stripComment l) = stripComment l := takeWhile_idem _ l
+
+/-- a line `code ++ "#" ++ anything` with no `#` in `code` is scanned as `code` -/
+theorem stripComment_append (code cmt : Line) (h : ∀ x ∈ code, x ≠ '#') : stripComment (code ++ '#' :: cmt) = code := by
+  unfold stripComment
+  induction code with
+  | nil => simp [List.takeWhile_cons]
+  | cons c cs ih =>
+    have hc : c ≠ '#' := h c (by simp)
+    have ih' := ih (fun x hx => h x (by simp [hx]))
+    simpa [List.takeWhile_cons, hc] using ih'
+
+/-- the scan of the lines after the first element sees only the comment-stripped lines -/
+theorem restLines_congr (ls ls' : List Line) (h : ls.map stripComment = ls'.map stripComment) : restLines ls = restLines ls' := by
+  induction ls generalizing ls' with
+  | nil =>
+    cases ls' with
+    | nil => rfl
+    | cons _ _ => simp at h
+  | cons l t ih =>
+    cases ls' with
+    | nil => simp at h
+    | cons l' t' =>
+      simp only [List.map_cons, List.cons.injEq] at h
+      simp only [restLines, h.1, ih t' h.2]
+
 end Pfst.ParseWrap
